@@ -513,11 +513,12 @@ std::vector<Plan> plans_for(const Cfg& c, const Dry& d, bool thorough) {
         return v;
     }
     const bool stdio = c.comp == "bz2";         // libbz2 writes through stdio: write() inside libc is not interposable
-    // which lists are complete: quick - history A with the fast producer; thorough - histories A and B everywhere, history L
-    // for the kernel (RLIMIT_FSIZE) faults with fsync (a superset of the calls made without); the rest is strided
-    const bool every = g_force_every || (thorough ? (c.hist == 'A' || c.hist == 'B') : (c.hist == 'A' && !c.paced));
-    const bool every_rlimit = every || (thorough && c.hist == 'L' && !c.paced && c.fsync);
-    const long stride = c.hist == 'H' ? (thorough ? 997 : 9973) : c.hist == 'L' ? (thorough ? 13 : 61) : 7;
+    // which lists are complete: quick - the kernel (RLIMIT_FSIZE) faults of history A with the fast producer and fsync (a
+    // superset of the calls made without fsync); thorough - histories A and B everywhere, history L for the kernel faults
+    // with fsync; the rest is strided
+    const bool every = g_force_every || (thorough && (c.hist == 'A' || c.hist == 'B'));
+    const bool every_rlimit = every || (thorough && c.hist == 'L' && !c.paced && c.fsync) || (!thorough && c.hist == 'A' && !c.paced && c.fsync);
+    const long stride = c.hist == 'H' ? (thorough ? 997 : 9973) : c.hist == 'L' ? (thorough ? 13 : 127) : 7;
     const std::vector<long> offs = offsets(d.size, every, stride);
     for (long o : offsets(d.size, every_rlimit, stride)) add("rlimit", o, EFBIG);
     const bool offset_sim = thorough || c.hist != 'H';      // quick, history H: kernel faults and call indices only
@@ -547,7 +548,7 @@ std::vector<Group> groups(bool T) {
         for (auto& f : fmts) for (auto& cm : comps) for (int fs = 0; fs < 2; ++fs) gr.cfgs.push_back(Cfg{f, cm, fs, hist, q, pool, paced});
         g.push_back(gr);
     };
-    product(std::string("history A (3 buffers), output queue 2, pool 1: ") + "every byte offset, every call index", 'A', 2, 1, 0);
+    product(std::string("history A (3 buffers), output queue 2, pool 1: ") + (T ? "every byte offset for every offset plan" : "every byte offset through RLIMIT_FSIZE with fsync, other offset plans strided by 7 + buffer boundaries") + ", every call index", 'A', 2, 1, 0);
     {
         Group gr; gr.name = "encoder failure (OPL, locations_on_ways, invalid way node location), every way position";
         for (auto& cm : comps) for (int fs = 0; fs < 2; ++fs) for (int paced = 0; paced < 2; ++paced) gr.cfgs.push_back(Cfg{"opl", cm, fs, 'E', 2, paced ? 2 : 1, paced});
@@ -560,7 +561,7 @@ std::vector<Group> groups(bool T) {
         for (const char* cm : {"bz2", "gz"}) for (int fs = 0; fs < 2; ++fs) gr.cfgs.push_back(Cfg{"osm", cm, fs, 'H', 20, 2, 0});
         g.push_back(gr);
     }
-    product(std::string("history L (output larger than the zlib/stdio buffers): ") + (T ? "every byte offset through RLIMIT_FSIZE with fsync, other offset plans strided by 13 + buffer boundaries" : "offsets strided by 61 + buffer boundaries"), 'L', 3, 2, 0);
+    product(std::string("history L (output larger than the zlib/stdio buffers): ") + (T ? "every byte offset through RLIMIT_FSIZE with fsync, other offset plans strided by 13 + buffer boundaries" : "offsets strided by 127 + buffer boundaries"), 'L', 3, 2, 0);
     if (T) product("history L, paced producer: offsets strided by 13 + buffer boundaries", 'L', 20, 1, 1);
     return g;
 }
